@@ -149,6 +149,15 @@ def run_jobs(prop, jobs, seed, tier, thash, rundir):
             res = None
             if rc == 0 and os.path.exists(out):
                 res = json.load(open(out))
+            if res is None and rc < 0 and job.get("crash_is_verdict"):
+                # the process was killed by a signal (memory corruption): the case it was executing is in its journal
+                try:
+                    cur = json.load(open(out + ".cur"))
+                except (OSError, ValueError):
+                    cur = {}
+                if cur.get("case") is not None:
+                    done.append((job, s, None, "crash", json.dumps(cur["case"])))
+                    continue
             done.append((job, s, res, rc, open(out + ".err").read()[-3000:]))
         running = still
     return done
@@ -162,6 +171,8 @@ def replay_cases(prop, cases, mode, thash, rundir, tag, timeout=None):
         r = subprocess.run([PY, "-m", "vlib.worker", "--prop", prop, "--job", "{}", "--replay", inp, "--out", out], cwd=HERE, env=base_env(mode, thash), capture_output=True, text=True, timeout=timeout)
     except subprocess.TimeoutExpired:
         return None
+    if r.returncode < 0:
+        return "crash"
     if r.returncode != 0 or not os.path.exists(out):
         sys.stderr.write(r.stdout[-3000:] + r.stderr[-3000:])
         raise SystemExit(2)
@@ -271,7 +282,7 @@ def main():
             if rc == "timeout":
                 inconclusive.append("%s shard %d hit its time budget" % (job["name"], s))
                 continue
-            if rc == "hang":
+            if rc in ("hang", "crash"):
                 hangs.append((job, s, json.loads(err)))
                 continue
             if job.get("crash_is_verdict"):
@@ -303,9 +314,15 @@ def main():
             continue
         seen_hang.add(canon(case))
         mode = job.get("mode", "I")
+        if job.get("slow_ok"):
+            # instances whose running time legitimately depends on the configuration: time is not a verdict
+            inconclusive.append("%s shard %d: a case exceeded the per-case time limit (no verdict): %s" % (job["name"], s, json.dumps(case)[:300]))
+            continue
         again = replay_cases(prop, [case], mode, thash, rundir, "hang-%s" % mode, timeout=90)
         interp = replay_cases(prop, [case], "I", thash, rundir, "hang-I", timeout=600) if mode != "I" else again
-        if interp and interp[0]["ok"] is False:
+        if again == "crash" or interp == "crash":
+            violations.append((case, "the worker process is killed by a signal while executing this case in mode %s (reproduced in a fresh process): memory was corrupted" % mode, job["name"], None))
+        elif interp and interp[0]["ok"] is False:
             violations.append((case, "worker stopped answering in mode %s; interpreted replay: %s" % (mode, interp[0]["msg"]), job["name"], None))
         elif again is None:
             violations.append((case, "the call does not return in mode %s (killed after 60 s and again after 90 s in a fresh process; such cases normally take milliseconds)%s" % (mode, "" if interp is None else "; the interpreted replay returns"), job["name"], None))
